@@ -318,6 +318,24 @@ DestroyMockStep(st, m) ==
             obs |-> [Obs0 EXCEPT !.reps = [i \in 1..Len(ms) |-> MissRep("pending", ms[i], st.exp[ms[i]])],
                                  !.repset = TRUE]]
 
+\* One of the critical sections of a mock object's destruction: each mock function's active list and then its saturated
+\* list is decommissioned under its own acquisition of the lock (other threads may release expectations in between).
+DestroyMockListStep(st, m, f, which, final) ==
+  IF ~(m \in Mocks /\ f \in Fns /\ which \in {0, 1}) THEN Skip(st) ELSE
+  IF ~st.malive[m] THEN Skip(st)
+  ELSE LET owned == Range(IF which = 0 THEN st.act[m][f] ELSE st.sat[m][f])
+           miss  == {s \in owned : Unfulfilled(st.exp[s])}
+           ms    == SeqToSetSeq(miss)
+       IN  [st |-> [st EXCEPT
+                !.malive[m] = (final # 1),
+                !.act[m][f] = IF which = 0 THEN <<>> ELSE @,
+                !.sat[m][f] = IF which = 1 THEN <<>> ELSE @,
+                !.exp = [s \in Slots |-> IF s \in owned
+                                         THEN [st.exp[s] EXCEPT !.linked = FALSE, !.rep = (@ \/ s \in miss)]
+                                         ELSE st.exp[s]]],
+            obs |-> [Obs0 EXCEPT !.reps = [i \in 1..Len(ms) |-> MissRep("pending", ms[i], st.exp[ms[i]])],
+                                 !.repset = TRUE]]
+
 MoveMockStep(st, m, m2) ==
   IF ~(m \in Mocks /\ m2 \in Mocks) THEN Skip(st) ELSE
   IF ~st.malive[m] \/ st.malive[m2] \/ m \in {NonMovableMock, WatchedMock} \/ m2 \in {NonMovableMock, WatchedMock} THEN Skip(st)
@@ -444,6 +462,7 @@ Step(st, ev) ==
                                     r2 == DestroyMockStep(r1.st, WatchedMock)
                                 IN  [st |-> r2.st, obs |-> [r2.obs EXCEPT !.reps = r1.obs.reps \o r2.obs.reps, !.anyreps = r1.obs.anyreps]]
                            ELSE DestroyMockStep(st, a[1])
+    [] ev.e = "dmlist"  -> DestroyMockListStep(st, a[1], a[2], a[3], a[4])
     [] ev.e = "mmock"   -> MoveMockStep(st, a[1], a[2])
     [] ev.e = "dseq"    -> DestroySeqStep(st, a[1])
     [] ev.e = "obj"     -> IF a[1] \in Objs /\ ~st.obj[a[1]].alive
